@@ -534,6 +534,7 @@ class ExecMixin(object):
             s2 = s.fork()
             if idx:
                 s2.env[idx] = VInt(0)
+            self.discover_loop_locals(stmt, s2, False, None, None)
             self.with_clauses(s2, "inv-entry", spec.get("inv", []), stmt, tag, assume_after=False)
         m = states[0].fork()
         common = None
@@ -601,6 +602,81 @@ class ExecMixin(object):
             return a.keys.eq(b.keys) and a.vals.eq(b.vals)
         return a is b
 
+    def discover_loop_locals(self, stmt, h, is_for, elem, k):
+        names, _, _ = assigned_names(stmt.body)
+        missing = [nm for nm in sorted(names) if nm not in h.env and nm not in self.ghost_names]
+        if not missing or getattr(self, "_discovering", False):
+            return
+        self._discovering = True
+        saved = (self.obligs, self.trivial, self.in_contract, dict(self.ghost_at))
+        self.obligs = []
+        self.ghost_at = {}
+        kinds = {}
+        try:
+            for _round in range(3):
+                d = h.fork()
+                for nm, v in kinds.items():
+                    if nm not in d.env:
+                        d.env[nm] = v
+                try:
+                    if is_for:
+                        self.assign(stmt.target, elem(k), d, stmt)
+                    outs = self.run_block_tolerant(stmt.body, d)
+                except (OutOfSubset, ContractError, PathEnd):
+                    outs = []
+                new = False
+                for s2 in outs:
+                    for nm in missing:
+                        if nm in s2.env and nm not in kinds:
+                            try:
+                                v_ = s2.env[nm]
+                                if isinstance(v_, VRef):
+                                    kinds[nm] = h.alloc(self.fresh_cell(s2.heap[v_.oid], h, nm))
+                                else:
+                                    kinds[nm] = self.fresh_like(v_, h, nm)
+                                new = True
+                            except OutOfSubset:
+                                pass
+                if not new:
+                    break
+        finally:
+            self.obligs, self.trivial, self.in_contract, self.ghost_at = saved[0], saved[1], saved[2], saved[3]
+            self._discovering = False
+        for nm, v in kinds.items():
+            if nm not in h.env:
+                h.env[nm] = v
+        if kinds:
+            self.assumptions.add("locals first bound inside a loop (%s) are arbitrary values of their kind at the loop "
+                                 "head; UnboundLocalError is not modelled" % ", ".join(sorted(kinds)))
+
+    def run_block_tolerant(self, stmts, st):
+        """like run_block but a path that hits an unmodelled construct is dropped (discovery only); -> states"""
+        cur = [st]
+        done = []
+        for stmt in stmts:
+            nxt = []
+            for s in cur:
+                try:
+                    if isinstance(stmt, ast.If):
+                        c = z3.simplify(self.ev_truth(stmt.test, s))
+                        for taken, body in ((c, stmt.body), (z3.Not(c), stmt.orelse)):
+                            s2 = s.fork()
+                            s2.assume(taken)
+                            nxt.extend(self.run_block_tolerant(body, s2))
+                        continue
+                    if isinstance(stmt, (ast.For, ast.While)):
+                        nxt.append(s)      # nested loops are skipped in discovery
+                        continue
+                    if isinstance(stmt, (ast.Continue, ast.Break, ast.Return, ast.Raise)):
+                        done.append(s)
+                        continue
+                    for kind, s2, val in self.run_stmt(stmt, s):
+                        (nxt if kind == NORMAL else done).append(s2)
+                except (OutOfSubset, ContractError, PathEnd):
+                    done.append(s)
+            cur = nxt
+        return done + cur
+
     def fresh_dict(self, ek, nm, st, default=False, sized=False):
         keys = z3.Array(fresh_name(nm + "_keys"), StrS, BoolS)
         if isinstance(ek, tuple):
@@ -642,6 +718,7 @@ class ExecMixin(object):
         # 1. entry
         if is_for:
             st.env[idx] = VInt(0)
+        self.discover_loop_locals(stmt, st, is_for, elem, z3.IntVal(0) if is_for else None)
         if getattr(st, "merged_entry_done", None) != id(stmt):
             self.with_clauses(st, "inv-entry", invs, stmt, tag, assume_after=False)
         # 2. havoc + assume invariant
@@ -655,6 +732,9 @@ class ExecMixin(object):
             h.env[idx] = VInt(k)
             h.assume(z3.And(0 <= k, k <= n))
             h.terms.append(k)
+        # loop-carried locals first bound inside the loop: discover their kind by a throw-away run of the body and
+        # bind them to arbitrary values of that kind (UnboundLocalError itself is not modelled)
+        self.discover_loop_locals(stmt, h, is_for, elem, k if is_for else None)
         for e in invs:
             self.in_contract = True
             try:
